@@ -13,3 +13,6 @@ def run(ctx):
     echcommon.foreign(ctx)
     # Conn level: a connection whose ECH was not accepted is never interpreted, whatever the backend answers
     echcommon.echconn_slice(ctx, lambda c: c["first"] != "acc", label="notaccepted")
+    # "every later byte": the connection NewConn returns carries no deadline of the context (EchWatch.tla scenarios)
+    import c10
+    c10.run_watch(ctx, 2, 64, label="c05w")
